@@ -4,7 +4,7 @@ Exploration: *program space*.  A state is one child expression (a leaf, or an ex
 size n-1); its transitions are ALL well-typed applications of one more combinator of the
 documented grammar (``a*E, E*a, E/a, E+a, a+E, E-a, a-E, v*E, E*v, E+v, v+E, E-v, v-E, -E, +E,
 E**n, E+F, E-F, E*F, E@F, a@E, E@a, v@E, E@v, OperatorPointwiseProduct(E, F)``) with every
-scalar / vector / leaf of the pool as the other operand.  Pool: 34 leaves on rn(3), rn(2),
+scalar / vector / leaf of the pool as the other operand.  Pool: 35 leaves on rn(3), rn(2),
 cn(2), between them and on the field R (linear, nonlinear, Functional and plain field-valued
 operators), scalars {2, -1, 1/2, 0, 1j}, two vectors per space.  Quick: every expression of
 size <= 2 over the full pool; thorough: also every expression of size 3 over a reduced pool.  Typing is decided by the reference type system
@@ -16,8 +16,12 @@ Oracle per expression: construction succeeds; ``.domain``/``.range`` are the typ
 set) and complete on the linear fragment (all leaves linear and only linearity-preserving
 combinators => True); the value at the four points x1, x2, x1+x2, 0 equals the reference
 interpreter (the table of the property statement applied recursively to NumPy closures),
-out-of-place and - when the range is a linear space - in-place into a NaN-filled ``out``;
-the evaluation point and the vector operands are left untouched.
+out-of-place and - when the range is a linear space - in-place into a NaN-filled ``out``,
+and (domain == range, all leaves alias-safe, first two points) in-place with ``out`` aliased
+to the input; the evaluation point and the vector operands are left untouched.  One leaf
+(`SeqDiff`, harness-defined) is correct for distinct x/out but not alias-safe, so a combinator
+that hands an operand aliased buffers although the caller did not is visible; the expression
+classes are also built directly with the documented user temporaries (tmp, tmp_ran, tmp_dom).
 """
 import numpy as np
 import odl
@@ -41,6 +45,7 @@ class _Env(object):
         self.sp = {'R3': odl.rn(3), 'R2': odl.rn(2), 'C2': odl.cn(2),
                    'R': odl.RealNumbers(), 'C': odl.ComplexNumbers()}
         self.ns = dict(self.sp, odl=odl, np=np)
+        exec(A.SEQDIFF_SRC, self.ns)       # the harness-defined alias-unsafe leaf class
         self.leaves = {}
         self.used = []          # (name, element) vector operands handed to the library
 
@@ -118,6 +123,15 @@ def build(e, env, pre=None):
         return env.vec(e[1]) @ B(e[2])
     if op == 'rvmatmul':
         return B(e[1]) @ env.vec(e[2])
+    if op == 'comptmp':
+        l, r = B(e[1]), B(e[2])
+        return odl.OperatorComp(l, r, tmp=l.domain.element())
+    if op == 'sumtmp':
+        l, r = B(e[1]), B(e[2])
+        return odl.OperatorSum(l, r, tmp_ran=l.range.element(), tmp_dom=l.domain.element())
+    if op == 'rsmultmp':
+        l = B(e[1])
+        return odl.OperatorRightScalarMult(l, S[e[2]], tmp=l.domain.element())
     if op == 'pwprod':
         return odl.OperatorPointwiseProduct(B(e[1]), B(e[2]))
     raise KeyError(op)
@@ -184,6 +198,10 @@ def _show(a):
     return repr(a.tolist())
 
 
+_PLAIN_BAD = frozenset(['value_differs', 'inplace_value_differs', 'result_not_in_range',
+                        'input_modified', 'inplace_returns_other'])
+
+
 def check(e, env, pre=None):
     """Execute one expression against the reference.  Returns (violations, evals, info);
     a violation is (symptom, detail)."""
@@ -202,6 +220,8 @@ def check(e, env, pre=None):
     used = list(env.used)
     evals = 1
     head = 'expr = %s; ' % A.src(e)
+    if 'SeqDiff' in head:
+        head = '[SeqDiff: see SEQDIFF_SRC in mc/ref/opalgebra.py] ' + head
     if isinstance(op, _FN) and ran in A.FIELDS and A.FIELD_OF[dom] != ran:
         # `Functional`: "an operator f that maps from some domain X to the field of scalars F
         # associated with the domain" - a Functional composed with an operator coming from a
@@ -231,7 +251,11 @@ def check(e, env, pre=None):
             viol.append((sym, det))
 
     inplace = ran not in A.FIELDS
-    for p in A.points(dom):
+    # out aliased with the input: the table defines the value whatever `out` is, and the
+    # expression classes are written to cope with it ("Write to `tmp` first, otherwise aliased
+    # `x` and `out` lead to wrong result"); judged when every leaf is itself alias-safe
+    aliased = inplace and dom == ran and A.alias_safe(e)
+    for ip, p in enumerate(A.points(dom)):
         tr = A.new_track()
         ref = A.ref_eval(e, p, tr)
         refa = np.asarray(ref)
@@ -278,6 +302,27 @@ def check(e, env, pre=None):
             if dom not in A.FIELDS and not np.array_equal(x.asarray(), p):
                 add('input_modified', head + ptxt + 'x is %s after expr(x, out=out)'
                     % _show(x.asarray()))
+        # (the aliased symptoms name what goes wrong ONLY with aliasing: an expression that is
+        # already wrong out-of-place / in-place is reported under those symptoms)
+        if (aliased and ip < 2 and not (seen & _PLAIN_BAD) and
+                not any(k.startswith(('call_raises', 'inplace_raises')) for k in seen)):
+            evals += 1
+            y = env.point(dom, p)
+            try:
+                r = op(y, out=y)
+            except Exception as exc:
+                add('aliased_raises:' + type(exc).__name__,
+                    head + ptxt + 'y = x.copy(); expr(y, out=y) raised %s: %s'
+                    % (type(exc).__name__, str(exc)[:200]))
+                r = None
+            if r is not None:
+                if r is not y:
+                    add('aliased_returns_other', head + ptxt + 'expr(y, out=y) is not y')
+                got = _flat(y, ran)
+                if not _close(got, refa, tr):
+                    add('aliased_value_differs',
+                        head + ptxt + 'y = x.copy(); expected y = %s after expr(y, out=y), got %s'
+                        % (_show(refa), _show(got)))
     for name, v in used:
         if not np.array_equal(v.asarray(), A.vec_array(name)):
             add('operand_modified', head + 'vector operand %s is now %s'
@@ -442,7 +487,12 @@ def meta(tier):
     full, red = A.FULL, A.REDUCED
     b = {'leaves': full['leaves'], 'scalars': full['scalars'], 'vectors': full['vecs'],
          'powers': full['pows'], 'size(full pool)': 2,
-         'points per expression': 'x1, x2, x1+x2, 0 of the domain; out-of-place and in-place'}
+         'points per expression': 'x1, x2, x1+x2, 0 of the domain; out-of-place and in-place; '
+                                  'x1, x2 also in-place with out aliased to the input when '
+                                  'domain == range and every leaf is alias-safe',
+         'tmp forms (over leaf pairs)': ['OperatorComp(A,B,tmp)',
+                                         'OperatorSum(A,B,tmp_ran,tmp_dom)',
+                                         'OperatorRightScalarMult(A,a,tmp)']}
     if tier == 'thorough':
         b.update({'size(reduced pool)': 3, 'reduced leaves': red['leaves'],
                   'reduced scalars': red['scalars'], 'reduced vectors': red['vecs'],
@@ -462,8 +512,8 @@ def meta(tier):
                   'all unreached lines are (i) the `raise` statements and `return NotImplemented` '
                   'arms for ill-typed operands (not enumerated: the property quantifies over '
                   'well-typed trees), incl. Functional.__mul__ falling through to Operator.__mul__ '
-                  'for a scalar outside the field, and (ii) the branches for user-supplied '
-                  'temporaries (tmp / tmp_ran / tmp_dom), which no overload passes'},
+                  'for a scalar outside the field, and (ii) the `raise` statements for '
+                  'user-supplied temporaries from the wrong space'},
         'assumptions': [
             'well-typedness follows the Parameters sections of Operator.__mul__/__rmul__/'
             '__add__/__truediv__/__pow__ and Functional.__mul__/__rmul__/__add__: scalars in '
